@@ -1,7 +1,7 @@
 -------------------------------- MODULE Mbs --------------------------------
 (* C15: multibyte <-> wide conversions.  The two encodings the property quantifies over are
    written out: "C" (ASCII: a byte or wide character >= 128 is not convertible) and "UTF8"
-   (RFC 3629: shortest form, no surrogates, <= U+10FFFF).  On top of them the module defines
+   (the C library's codeset: shortest form, no surrogates; see DecodeU8).  On top of them the module defines
    what the standard functions deliver (mbsrtowcs / wcsrtombs / wcrtomb, of which mbstowcs /
    wcstombs / wctomb are the non-restartable forms) and the contract of the _s functions:
    the standard result when it fits in dmax together with its terminator, an error with a
@@ -17,7 +17,8 @@ EOK == 0  ESNULLP == 400  ESZEROL == 401  ESLEMAX == 403  ESNOSPC == 406  EILSEQ
 Mod(a, m) == a - m * (a \div m)
 IsCont(b) == b >= 128 /\ b < 192
 Bad == [n |-> 0, c |-> 0]
-\* one character of byte sequence b at index i
+\* one character of byte sequence b at index i.  "UTF8" is the C library's UTF-8 codeset: the original 31-bit form
+\* (1..6 bytes, up to 0x7FFFFFFF), shortest form only, no surrogates.  (RFC 3629 stops at U+10FFFF; glibc does not.)
 DecodeU8(b, i) ==
   LET b0 == b[i]
       cont(k) == i + k <= Len(b) /\ IsCont(b[i + k])
@@ -30,21 +31,33 @@ DecodeU8(b, i) ==
            THEN LET c == (b0 - 224) * 4096 + low(1) * 64 + low(2)
                 IN IF c < 2048 \/ (c >= 55296 /\ c <= 57343) THEN Bad ELSE [n |-> 3, c |-> c]
            ELSE Bad)
-     ELSE IF b0 >= 240 /\ b0 < 245 THEN
+     ELSE IF b0 >= 240 /\ b0 < 248 THEN
           (IF cont(1) /\ cont(2) /\ cont(3)
            THEN LET c == (b0 - 240) * 262144 + low(1) * 4096 + low(2) * 64 + low(3)
-                IN IF c < 65536 \/ c > 1114111 THEN Bad ELSE [n |-> 4, c |-> c]
+                IN IF c < 65536 THEN Bad ELSE [n |-> 4, c |-> c]
+           ELSE Bad)
+     ELSE IF b0 >= 248 /\ b0 < 252 THEN
+          (IF cont(1) /\ cont(2) /\ cont(3) /\ cont(4)
+           THEN LET c == (b0 - 248) * 16777216 + low(1) * 262144 + low(2) * 4096 + low(3) * 64 + low(4)
+                IN IF c < 2097152 THEN Bad ELSE [n |-> 5, c |-> c]
+           ELSE Bad)
+     ELSE IF b0 >= 252 /\ b0 < 254 THEN
+          (IF cont(1) /\ cont(2) /\ cont(3) /\ cont(4) /\ cont(5)
+           THEN LET c == (b0 - 252) * 1073741824 + low(1) * 16777216 + low(2) * 262144 + low(3) * 4096 + low(4) * 64 + low(5)
+                IN IF c < 67108864 THEN Bad ELSE [n |-> 6, c |-> c]
            ELSE Bad)
      ELSE Bad
 Decode(b, i, loc) == IF loc = "C" THEN (IF b[i] < 128 THEN [n |-> 1, c |-> b[i]] ELSE Bad) ELSE DecodeU8(b, i)
 
 EncodeU8(c) ==
+  LET k(s) == 128 + Mod(c \div s, 64) IN
   IF c < 128 THEN <<c>>
-  ELSE IF c < 2048 THEN <<192 + c \div 64, 128 + Mod(c, 64)>>
+  ELSE IF c < 2048 THEN <<192 + c \div 64, k(1)>>
   ELSE IF c >= 55296 /\ c <= 57343 THEN <<>>
-  ELSE IF c < 65536 THEN <<224 + c \div 4096, 128 + Mod(c \div 64, 64), 128 + Mod(c, 64)>>
-  ELSE IF c <= 1114111 THEN <<240 + c \div 262144, 128 + Mod(c \div 4096, 64), 128 + Mod(c \div 64, 64), 128 + Mod(c, 64)>>
-  ELSE <<>>
+  ELSE IF c < 65536 THEN <<224 + c \div 4096, k(64), k(1)>>
+  ELSE IF c < 2097152 THEN <<240 + c \div 262144, k(4096), k(64), k(1)>>
+  ELSE IF c < 67108864 THEN <<248 + c \div 16777216, k(262144), k(4096), k(64), k(1)>>
+  ELSE <<252 + c \div 1073741824, k(16777216), k(262144), k(4096), k(64), k(1)>>
 \* <<>> = not convertible
 Encode(c, loc) == IF loc = "C" THEN (IF c < 128 THEN <<c>> ELSE <<>>) ELSE EncodeU8(c)
 
